@@ -753,9 +753,73 @@ def def_specs(quick: bool):
     return out, {"partB_attr_sized_max_defs": b_attr_n, "partB_attr_sized_3defs_max_list_length": b_maxlen3}
 
 
+def region_entry_family(st: Stats) -> None:
+    """part G: region definitions WITH entry-argument constraints x every entry-block shape (no block, block with 0, 1, 2
+    arguments over {i32, i64}) for single / optional / variadic region definitions.  Reference: a region without blocks is
+    not constrained; otherwise the entry block's argument types must satisfy the range constraint (element constraint
+    and length)."""
+    from xdsl.dialects.builtin import i32, i64
+    from xdsl.dialects.test import TestTermOp
+    from xdsl.ir import Block, Region
+    from xdsl.irdl import (AnyAttr, EqAttrConstraint, IRDLOperation, RangeOf, irdl_op_definition, opt_region_def,
+                           region_def, var_region_def)
+
+    T = {"3": i32, "6": i64}
+    cons = {
+        "any*": (RangeOf(AnyAttr()), lambda ts: True),
+        "i32*": (RangeOf(EqAttrConstraint(i32)), lambda ts: all(t == "3" for t in ts)),
+        "i32^0": (RangeOf(EqAttrConstraint(i32)).of_length(0), lambda ts: len(ts) == 0),
+        "i32^1": (RangeOf(EqAttrConstraint(i32)).of_length(1), lambda ts: ts == ("3",)),
+        "i32^2": (RangeOf(EqAttrConstraint(i32)).of_length(2), lambda ts: ts == ("3", "3")),
+        "any^1": (RangeOf(AnyAttr()).of_length(1), lambda ts: len(ts) == 1),
+    }
+    shapes = [None, (), ("3",), ("6",), ("3", "3"), ("3", "6"), ("6", "3")]
+
+    def mk_region(shape):
+        if shape is None:
+            return Region()
+        return Region(Block([TestTermOp.create()], arg_types=[T[c] for c in shape]))
+
+    n = 0
+    for cname, (c, accept) in cons.items():
+        for kind, mkdef, counts in (("S", region_def, (1,)), ("O", opt_region_def, (0, 1)), ("V", var_region_def, (0, 1, 2))):
+            n += 1
+
+            @irdl_op_definition
+            class _G(IRDLOperation):
+                name = f"c10.regentry{n}"
+                body = mkdef(entry_args=c)
+
+            st.transitions += 1
+            for k in counts:
+                for combo in itertools.product(shapes, repeat=k):
+                    ref = all(sh is None or accept(tuple(sh)) for sh in combo)
+                    op = _G.create(regions=[mk_region(sh) for sh in combo])
+                    st.states += 1
+                    st.executions += 1
+                    st.evaluations += 1
+                    st.nontrivial += 1 if any(sh == () for sh in combo) else 0
+                    try:
+                        op.verify_()
+                        got = True
+                    except Exception as e:  # noqa: BLE001
+                        got = False
+                        if type(e).__name__ != "VerifyException":
+                            st.violate(f"C10|region-entry-args|{kind}|verify-raises-{type(e).__name__}",
+                                       f"verify_ raised {type(e).__name__} for a region entry-argument check", {"constraint": cname, "kind": kind, "shapes": [list(x) if x is not None else None for x in combo]})
+                            continue
+                    st.outcomes[f"region-entry:{'accept' if got else 'reject'}"] += 1
+                    if got != ref:
+                        empty = any(sh == () for sh in combo)
+                        st.violate(f"C10|region-entry-args|{kind}|{'invalid-accepted' if got else 'valid-rejected'}|{'entry-block-without-args' if empty else 'entry-block-with-args'}",
+                                   f"entry-argument constraint {cname}: verify_ {'accepts' if got else 'rejects'} entry blocks {combo}, the definition says {'accept' if ref else 'reject'}",
+                                   {"constraint": cname, "kind": kind, "shapes": [list(x) if x is not None else None for x in combo]})
+
+
 def run(ctx):
     from mc import corpus
 
+    region_entry_family(ctx.stats)
     specs, binfo = def_specs(ctx.quick)
     tasks = [(cost, ("D", spec, params, ctx.seed)) for spec, params, cost in specs]
     dirs = QUICK_CORPUS_DIRS if ctx.quick else THOROUGH_CORPUS_DIRS
@@ -778,6 +842,8 @@ def run(ctx):
         "partR": "RangeVarConstraint R shared by two optional/variadic segments of one construct (lists 0..4, all size "
         "vectors), by an operand and a result segment (every pair of lists 0..2), and by two operand + one result segment",
         "partC": "operand kind x result kind x holder kind; lists 0..2; holder in {missing,i32,i64,str}",
+        "partG": "region_def / opt_region_def / var_region_def with entry_args in {any*, i32*, i32^0, i32^1, i32^2, any^1} x entry blocks "
+                 "{none, (), (i32), (i64), (i32,i32), (i32,i64), (i64,i32)} per region (0..2 regions)",
         "definitions": len(specs), "corpus_dirs": list(dirs), "corpus_files": len(files),
     }
     ctx.rule = ("states = (definition, instance) pairs of the product families A/B/C plus corpus ops; transitions = "
@@ -789,7 +855,7 @@ def run(ctx):
         "reference segmenter/constraint evaluator in props/c10.py states the property",
         "op.verify_() (OpDef.verify) is the IRDL definition verification; Operation.verify() adds only structural "
         "checks (terminator placement, nested regions) that are out of scope; used for constructor-built ops without successors",
-        "regions are empty Region() objects, so region entry-argument constraints are vacuous",
+        "in parts A-C regions are empty Region() objects; entry-argument constraints are covered by part G",
         "a verification that raises a non-VerifyException (e.g. IndexError) on an op the reference rejects is counted "
         "as a rejection (visible in outcomes), not as a violation",
         "corpus chunks that do not parse/verify with all dialects registered are not part of the corpus",
@@ -797,6 +863,10 @@ def run(ctx):
 
 
 def replay(rep) -> bool:
+    if "constraint" in rep.get("witness", {}) and "shapes" in rep["witness"]:
+        st0 = Stats()
+        region_entry_family(st0)
+        return rep["signature"] not in st0.violations
     w = rep["witness"]
     st = Stats()
     if w.get("part") == "K":
